@@ -69,6 +69,7 @@ Definition reviewed_rows : list reviewed := [
   (* the debug log of a ListGrader is shared with its subgraders for the duration of the check *)
   mkRev lstg "ListGrader.check" "subgrader.debuglog" WLogHandle;
   mkRev lstg "ListGrader.check" "self.config['subgraders'].debuglog" WLogHandle;
+  mkRev lstg "SingleListGrader.check_response" "self.config['subgrader'].debuglog" WLogHandle;
   (* process-wide defaults: the author-facing API *)
   mkRev base "ObjectWithSchema.register_defaults" "cls.default_values" WRegistryAPI;
   mkRev base "ObjectWithSchema.clear_registered_defaults" "cls.default_values" WRegistryAPI;
@@ -86,9 +87,9 @@ Definition reviewed_rows : list reviewed := [
   mkRev "mitxgraders/helpers/calc/expressions.py" "<module>" "np.seterrcall(handle_np_floating_errors)" WImportTime;
   mkRev "mitxgraders/helpers/calc/expressions.py" "<module>" "np.seterr(divide='call', over='call', invalid='call')" WImportTime;
   mkRev "mitxgraders/helpers/calc/mathfuncs.py" "<module>" "SCALAR_FUNCTIONS['arctan2']" WImportTime;
-  mkRev "mitxgraders/helpers/calc/mathfuncs.py" "<module>" "SCALAR_FUNCTIONS['kronecker']" WImportTime;
-  (* DEFECT (C11 finding): IntervalGrader(config_dict) stores the default subgrader in the author's dictionary *)
-  mkRev ivlg "IntervalGrader.__init__" "use_config['subgrader']" WAuthorObject
+  mkRev "mitxgraders/helpers/calc/mathfuncs.py" "<module>" "SCALAR_FUNCTIONS['kronecker']" WImportTime
+  (* no site is currently marked WAuthorObject: IntervalGrader.__init__ used to store the default subgrader in the
+     author's dictionary (fixed in ff4d9d4: it now works on a copy, so the row is gone from the inventory) *)
 ].
 
 (* rows that need no review *)
